@@ -19,6 +19,7 @@ import Drivers.Gradation
 import Drivers.Subdiv
 import Drivers.Collapse
 import Drivers.Quality
+import Drivers.Unit
 
 /-! `refdrv <driver> [args]` : dispatch to a line-protocol driver. One match arm per driver, on one line. -/
 
@@ -43,6 +44,7 @@ def main (args : List String) : IO UInt32 := do
   | "subdiv" :: rest => Drivers.Subdiv.run rest
   | "collapse" :: rest => Drivers.Collapse.run rest
   | "quality" :: rest => Drivers.Quality.run rest
+  | "unit" :: rest => Drivers.Unit.run rest
   | _ =>
     IO.eprintln s!"refdrv: unknown driver {args}"
     return 2
